@@ -472,6 +472,9 @@ const maxDepth = 400
 
 // call invokes fn with args (receiver first) and closure env.
 func (it *Interp) call(caller *frame, fv FuncV, args []Value) Value {
+	if fv.native != nil {
+		return fv.native(it, caller, args)
+	}
 	if fv.fn == nil {
 		if fv.bi != nil {
 			return it.callBuiltin(caller, fv.bi, args, nil)
